@@ -1,2 +1,755 @@
-(* Proofs for property C12. *)
-From SC.Model Require Import Base.
+(* Proofs for property C12 (unit conversion).
+
+   The conversion chain is DATA: every unit carries an upgrade and a downgrade code string
+   ("{value} / 10", "{value} * 1024", ...), every bridge between two families two more.  The
+   model (Items.unit_loop / calculate_unit / dyn_convert) substitutes the amount into the code
+   and evaluates it through [bexec] (= Api.basic_execute: lexer + parser + interpreter).
+
+   1. code_shape          a parser for the codes: "{value}", "{value} * c", "{value} / c" (c decimal);
+      codes_shaped        finite-table: every code of the loaded table has one of these shapes
+   2. walk_path/unit_path/conv_path
+                          the chain walk of the model with the evaluator left out: the list of
+                          steps (shapes) the model performs, in order
+      convert_is_path     for every number algebra, evaluator and configuration: if the evaluator
+                          computes [step sh x] on the code of shape [sh] with [x] substituted, then
+                          dyn_convert = the steps of conv_path applied in order (all amounts)
+   3. run_q_linear        over Qc the steps applied in order are x * path_factor (all x)
+   4. factor_table        finite-table: all ordered pairs (u, v) of one kind, every name of v:
+                          the path exists, ends in v, and its factor is size u / size v of Spec/Units
+      linear / inverse / transitive as corollaries for all amounts
+   5. kinds               dyn_convert never yields a unit of another kind (any evaluator)
+   6. arithmetic          Items.calculate on quantities (any number algebra)
+   7. binary64            the faithful model (basic_execute on the substituted string) agrees with
+                          the abstract step on samples; end-to-end examples *)
+From Coq Require Import QArith Qcanon.
+From SC.Model Require Import Base Num NumF64 NumQ FloatIO Types Config Parser Items RuleFns Api Run64 Corr.
+From SC.Spec Require Import Units.
+From SC.Gen Require Import ConfigData.
+From Coq Require Import Floats.
+Open Scope Z_scope.
+
+(* ------------------------------------------------------------------------------------- *)
+(* 1. the shape of a conversion code                                                      *)
+(* ------------------------------------------------------------------------------------- *)
+(* the constant is the decimal m * 10^-k *)
+Inductive shape := SId | SMul (m k : Z) | SDiv (m k : Z).
+
+Fixpoint strip_prefix (p x : str) : option str :=
+  match p, x with
+  | [], _ => Some x
+  | a :: p', b :: x' => if N.eqb a b then strip_prefix p' x' else None
+  | _ :: _, [] => None
+  end.
+
+Definition is_digit (c : N) : bool := (48 <=? c)%N && (c <=? 57)%N.
+
+(* digits [ '.' digits ] *)
+Fixpoint dec_go (x : str) (m k : Z) (seen_dot any : bool) : option (Z * Z) :=
+  match x with
+  | [] => if any then Some (m, k) else None
+  | c :: r =>
+    if is_digit c then dec_go r (10 * m + Z.of_N (c - 48)) (if seen_dot then k + 1 else k) seen_dot true
+    else if N.eqb c 46 && negb seen_dot && any then dec_go r m k true false
+    else None
+  end.
+
+Definition dec_of (x : str) : option (Z * Z) := dec_go x 0 0 false false.
+
+Definition code_shape (code : str) : option shape :=
+  match strip_prefix (s "{value}") code with
+  | None => None
+  | Some [] => Some SId
+  | Some rest =>
+    match strip_prefix (s " * ") rest with
+    | Some d => option_map (fun mk => SMul (fst mk) (snd mk)) (dec_of d)
+    | None =>
+      match strip_prefix (s " / ") rest with
+      | Some d => option_map (fun mk => SDiv (fst mk) (snd mk)) (dec_of d)
+      | None => None
+      end
+    end
+  end.
+
+Definition has_shape (code : str) : bool :=
+  match code_shape code with Some _ => true | None => false end.
+
+Definition units_of {G} (T : list (str * list (N * dyntype G))) : list (dyntype G) :=
+  flat_map (fun g => map snd (snd g)) T.
+
+(* the table the model loads (Api.load_config on Gen/ConfigData.d_types_raw, d_type_conv) *)
+Definition TYPES := cf_types default_config.
+Definition CONVS := cf_type_conv default_config.
+Definition UNITS := units_of TYPES.
+
+Definition raw_codes : list str :=
+  flat_map (fun g => flat_map (fun it =>
+     let '(_, _, _, up, down, _, _, _, _, _) := it in [up; down]) (snd g)) d_types_raw
+  ++ flat_map (fun tc => [tc_to_source tc; tc_to_target tc]) d_type_conv.
+
+Theorem codes_shaped :
+  (forall code, In code raw_codes -> has_shape code = true) /\
+  (forall u, In u UNITS -> has_shape (dt_up u) = true /\ has_shape (dt_down u) = true) /\
+  (forall tc, In tc CONVS -> has_shape (tc_to_source tc) = true /\ has_shape (tc_to_target tc) = true).
+Proof.
+  split; [|split].
+  - apply forallb_forall. vm_compute. reflexivity.
+  - assert (H : forallb (fun u => has_shape (dt_up u) && has_shape (dt_down u)) UNITS = true)
+      by (vm_compute; reflexivity).
+    rewrite forallb_forall in H. intros u Hu. apply andb_true_iff. apply H, Hu.
+  - assert (H : forallb (fun tc => has_shape (tc_to_source tc) && has_shape (tc_to_target tc)) CONVS = true)
+      by (vm_compute; reflexivity).
+    rewrite forallb_forall in H. intros u Hu. apply andb_true_iff. apply H, Hu.
+Qed.
+
+(* the loaded table is the regenerated one: same units in the same families, both bridges *)
+Theorem table_loaded :
+  length UNITS = 33%nat /\
+  map (fun g => (fst g, map (fun e => (fst e, dt_index (snd e), dt_up (snd e), dt_down (snd e), dt_names (snd e), dt_group (snd e))) (snd g))) TYPES
+  = map (fun g => (fst g, map (fun it => let '(i, _, _, up, down, names, _, _, _, grp) := it in (i, i, up, down, names, grp)) (snd g)))
+        (fold_left (fun acc g => assoc_insert (fst g) (snd g) acc) d_types_raw []) /\
+  CONVS = d_type_conv.
+Proof. vm_compute. repeat split; reflexivity. Qed.
+
+(* ------------------------------------------------------------------------------------- *)
+(* 2. the chain walk with the evaluator left out                                          *)
+(* ------------------------------------------------------------------------------------- *)
+Section Path.
+Context {G : Type}.
+
+(* mirrors Items.unit_loop *)
+Fixpoint walk_path (fuel : nat) (group : list (N * dyntype G)) (upgrade : bool) (target_index : N)
+         (next_item : dyntype G) (search_index : Z) : option (list shape) :=
+  match fuel with
+  | O => None
+  | S f =>
+    match code_shape (if upgrade then dt_up next_item else dt_down next_item) with
+    | None => None
+    | Some sh =>
+      match nassoc (Z.to_N search_index) group with
+      | None => None
+      | Some next' =>
+        if N.eqb (dt_index next') target_index then Some [sh]
+        else if negb upgrade && (search_index =? 0) then None
+        else option_map (cons sh)
+               (walk_path f group upgrade target_index next'
+                          (if upgrade then search_index + 1 else search_index - 1))
+      end
+    end
+  end.
+
+(* mirrors Items.calculate_unit *)
+Definition unit_path (src tgt : dyntype G) (group : list (N * dyntype G)) : option (list shape) :=
+  if N.eqb (dt_index src) (dt_index tgt) then Some []
+  else
+    match nassoc (dt_index src) group with
+    | None => None
+    | Some next_item =>
+      let upgrade := negb (N.ltb (dt_index tgt) (dt_index src)) in
+      let search := if upgrade then Z.of_N (dt_index src) + 1 else Z.of_N (dt_index src) - 1 in
+      let dist := Z.to_nat (Z.abs (Z.of_N (dt_index src) - Z.of_N (dt_index tgt))) in
+      walk_path (S dist) group upgrade (dt_index tgt) next_item search
+    end.
+
+Definition conv_entry (C : list type_conv) (src : dyntype G) : option type_conv :=
+  List.find (fun tc => str_eqb (tc_src_name tc) (dt_group src) || str_eqb (tc_tgt_name tc) (dt_group src)) C.
+
+(* mirrors Items.dyn_convert: the steps and the unit reached *)
+Definition conv_path (T : list (str * list (N * dyntype G))) (C : list type_conv)
+           (src : dyntype G) (target_name : str) : option (list shape * dyntype G) :=
+  match assoc (dt_group src) T with
+  | None => None
+  | Some group =>
+    match find_by_name target_name (map snd group) with
+    | Some target =>
+      if N.eqb (dt_index src) (dt_index target) then Some ([], src)
+      else option_map (fun p => (p, target)) (unit_path src target group)
+    | None =>
+      match conv_entry C src with
+      | None => None
+      | Some tc =>
+        let is_src := str_eqb (tc_src_name tc) (dt_group src) in
+        let source_index := if is_src then tc_src_index tc else tc_tgt_index tc in
+        let target_index := if is_src then tc_tgt_index tc else tc_src_index tc in
+        match nassoc source_index group with
+        | None => None
+        | Some bridge =>
+          match unit_path src bridge group with
+          | None => None
+          | Some p1 =>
+            match code_shape (if is_src then tc_to_source tc else tc_to_target tc) with
+            | None => None
+            | Some shb =>
+              match assoc (if is_src then tc_tgt_name tc else tc_src_name tc) T with
+              | None => None
+              | Some g =>
+                match find_by_name target_name (map snd g) with
+                | None => None
+                | Some tgt =>
+                  match nassoc target_index g with
+                  | None => None
+                  | Some src2 =>
+                    option_map (fun p3 => (p1 ++ shb :: p3, tgt)) (unit_path src2 tgt g)
+                  end
+                end
+              end
+            end
+          end
+        end
+      end
+    end
+  end.
+
+(* the units a conversion from [src] can end in, whatever the target name and the evaluator *)
+Definition reach (T : list (str * list (N * dyntype G))) (C : list type_conv) (src : dyntype G)
+  : list (dyntype G) :=
+  match assoc (dt_group src) T with
+  | None => []
+  | Some group =>
+    src :: map snd group ++
+    match conv_entry C src with
+    | None => []
+    | Some tc =>
+      match assoc (if str_eqb (tc_src_name tc) (dt_group src) then tc_tgt_name tc else tc_src_name tc) T with
+      | None => []
+      | Some g => map snd g
+      end
+    end
+  end.
+
+End Path.
+
+Section Simulation.
+Context {F : Type} {NF : Num F}.
+Variable bexec : config F -> str -> res (option F).
+Variable cfg : config F.
+Variable step : shape -> F -> F.
+
+(* the evaluator computes [step sh x] on a code of shape [sh] with the amount [x] substituted *)
+Definition evaluates : Prop :=
+  forall x code sh, code_shape code = Some sh ->
+    bexec cfg (replace_all (s "{value}") (fdisplay x) code) = Ok (Some (step sh x)).
+
+Definition run_path (path : list shape) (x : F) : F := fold_left (fun a sh => step sh a) path x.
+
+Lemma run_path_app p q x : run_path (p ++ q) x = run_path q (run_path p x).
+Proof. apply fold_left_app. Qed.
+
+Hypothesis Hev : evaluates.
+
+Lemma unit_loop_path : forall fuel group up ti x next si path,
+  walk_path fuel group up ti next si = Some path ->
+  unit_loop bexec fuel cfg group up ti x next si = Ok (Some (run_path path x)).
+Proof.
+  induction fuel as [|f IH]; intros group up ti x next si path H; [discriminate|].
+  cbn [walk_path] in H. cbn [unit_loop].
+  destruct (code_shape (if up then dt_up next else dt_down next)) as [sh|] eqn:Hs; [|discriminate].
+  rewrite (Hev x _ sh Hs). cbn [bind].
+  destruct (nassoc (Z.to_N si) group) as [next'|]; [|discriminate].
+  destruct (N.eqb (dt_index next') ti).
+  - inversion H; subst. reflexivity.
+  - destruct (negb up && (si =? 0)); [discriminate|].
+    destruct (walk_path f group up ti next' (if up then si + 1 else si - 1)) as [p|] eqn:Hw; [|discriminate].
+    inversion H; subst. rewrite (IH _ _ _ (step sh x) _ _ _ Hw). reflexivity.
+Qed.
+
+Lemma calculate_unit_path : forall x src tgt group path,
+  unit_path src tgt group = Some path ->
+  calculate_unit bexec cfg x src tgt group = Ok (Some (run_path path x)).
+Proof.
+  intros x src tgt group path H. unfold unit_path in H. unfold calculate_unit.
+  destruct (N.eqb (dt_index src) (dt_index tgt)).
+  - inversion H; subst. reflexivity.
+  - destruct (nassoc (dt_index src) group) as [ni|]; [|discriminate].
+    apply unit_loop_path. exact H.
+Qed.
+
+Theorem convert_is_path : forall x src name path tgt,
+  conv_path (cf_types cfg) (cf_type_conv cfg) src name = Some (path, tgt) ->
+  dyn_convert bexec cfg x src name = Ok (Some (run_path path x, tgt)).
+Proof.
+  intros x src name path tgt H. unfold conv_path in H. unfold dyn_convert.
+  destruct (assoc (dt_group src) (cf_types cfg)) as [group|]; [|discriminate].
+  destruct (find_by_name name (map snd group)) as [target|].
+  - destruct (N.eqb (dt_index src) (dt_index target)).
+    + inversion H; subst. reflexivity.
+    + destruct (unit_path src target group) as [p|] eqn:Hp; [|discriminate].
+      inversion H; subst. rewrite (calculate_unit_path x _ _ _ _ Hp). reflexivity.
+  - unfold conv_entry in H.
+    destruct (find _ (cf_type_conv cfg)) as [tc|]; [|discriminate].
+    destruct (str_eqb (tc_src_name tc) (dt_group src)).
+    + destruct (nassoc (tc_src_index tc) group) as [bridge|]; [|discriminate].
+      destruct (unit_path src bridge group) as [p1|] eqn:Hp1; [|discriminate].
+      rewrite (calculate_unit_path x _ _ _ _ Hp1). cbn [bind].
+      destruct (code_shape (tc_to_source tc)) as [shb|] eqn:Hs; [|discriminate].
+      rewrite (Hev _ _ shb Hs). cbn [bind].
+      destruct (assoc (tc_tgt_name tc) (cf_types cfg)) as [g|]; [|discriminate].
+      destruct (find_by_name name (map snd g)) as [t|]; [|discriminate].
+      destruct (nassoc (tc_tgt_index tc) g) as [src2|]; [|discriminate].
+      destruct (unit_path src2 t g) as [p3|] eqn:Hp3; [|discriminate].
+      inversion H; subst. rewrite (calculate_unit_path _ _ _ _ _ Hp3). cbn [bind option_map].
+      rewrite run_path_app. reflexivity.
+    + destruct (nassoc (tc_tgt_index tc) group) as [bridge|]; [|discriminate].
+      destruct (unit_path src bridge group) as [p1|] eqn:Hp1; [|discriminate].
+      rewrite (calculate_unit_path x _ _ _ _ Hp1). cbn [bind].
+      destruct (code_shape (tc_to_target tc)) as [shb|] eqn:Hs; [|discriminate].
+      rewrite (Hev _ _ shb Hs). cbn [bind].
+      destruct (assoc (tc_src_name tc) (cf_types cfg)) as [g|]; [|discriminate].
+      destruct (find_by_name name (map snd g)) as [t|]; [|discriminate].
+      destruct (nassoc (tc_src_index tc) g) as [src2|]; [|discriminate].
+      destruct (unit_path src2 t g) as [p3|] eqn:Hp3; [|discriminate].
+      inversion H; subst. rewrite (calculate_unit_path _ _ _ _ _ Hp3). cbn [bind option_map].
+      rewrite run_path_app. reflexivity.
+Qed.
+
+End Simulation.
+
+(* whatever the evaluator does: the unit reached is one of [reach] *)
+Section Reach.
+Context {F : Type} {NF : Num F}.
+Variable bexec : config F -> str -> res (option F).
+Variable cfg : config F.
+
+Lemma find_by_name_in name (l : list (dyntype F)) t :
+  find_by_name name l = Some t -> In t l /\ mem_str name (dt_names t) = true.
+Proof. intro H. apply find_some in H. exact H. Qed.
+
+Theorem convert_reach : forall x src name y tgt,
+  dyn_convert bexec cfg x src name = Ok (Some (y, tgt)) ->
+  In tgt (reach (cf_types cfg) (cf_type_conv cfg) src) /\
+  exists t', In t' (reach (cf_types cfg) (cf_type_conv cfg) src) /\ mem_str name (dt_names t') = true.
+Proof.
+  intros x src name y tgt H. unfold dyn_convert in H. unfold reach, conv_entry.
+  destruct (assoc (dt_group src) (cf_types cfg)) as [group|]; [|discriminate].
+  destruct (find_by_name name (map snd group)) as [target|] eqn:Hf.
+  - apply find_by_name_in in Hf as [Hin Hm].
+    destruct (N.eqb (dt_index src) (dt_index target)).
+    + inversion H; subst. split; [left; reflexivity|].
+      exists target. split; [|exact Hm]. right. apply in_or_app. left. exact Hin.
+    + destruct (calculate_unit bexec cfg x src target group) as [[r|]|]; try discriminate.
+      cbn in H. inversion H; subst.
+      assert (In tgt (src :: map snd group ++
+                match find (fun tc => str_eqb (tc_src_name tc) (dt_group src) || str_eqb (tc_tgt_name tc) (dt_group src)) (cf_type_conv cfg) with
+                | Some tc => match assoc (if str_eqb (tc_src_name tc) (dt_group src) then tc_tgt_name tc else tc_src_name tc) (cf_types cfg) with
+                             | Some g => map snd g | None => [] end
+                | None => [] end)) as Hr by (right; apply in_or_app; left; exact Hin).
+      split; [exact Hr|]. exists tgt. split; [exact Hr | exact Hm].
+  - destruct (find _ (cf_type_conv cfg)) as [tc|]; [|discriminate].
+    destruct (str_eqb (tc_src_name tc) (dt_group src)).
+    + destruct (nassoc (tc_src_index tc) group) as [bridge|]; [|discriminate].
+      destruct (calculate_unit bexec cfg x src bridge group) as [[n1|]|]; try discriminate.
+      cbn [bind] in H.
+      destruct (bexec cfg _) as [[n2|]|]; try discriminate. cbn [bind] in H.
+      destruct (assoc (tc_tgt_name tc) (cf_types cfg)) as [g|]; [|discriminate].
+      destruct (find_by_name name (map snd g)) as [t|] eqn:Hg; [|discriminate].
+      apply find_by_name_in in Hg as [Hin Hm].
+      destruct (nassoc (tc_tgt_index tc) g) as [src2|]; [|discriminate].
+      destruct (calculate_unit bexec cfg n2 src2 t g) as [[r|]|]; try discriminate.
+      cbn in H. inversion H; subst.
+      assert (In tgt (src :: map snd group ++ map snd g)) as Hr by (right; apply in_or_app; right; exact Hin).
+      split; [exact Hr|]. exists tgt. split; [exact Hr | exact Hm].
+    + destruct (nassoc (tc_tgt_index tc) group) as [bridge|]; [|discriminate].
+      destruct (calculate_unit bexec cfg x src bridge group) as [[n1|]|]; try discriminate.
+      cbn [bind] in H.
+      destruct (bexec cfg _) as [[n2|]|]; try discriminate. cbn [bind] in H.
+      destruct (assoc (tc_src_name tc) (cf_types cfg)) as [g|]; [|discriminate].
+      destruct (find_by_name name (map snd g)) as [t|] eqn:Hg; [|discriminate].
+      apply find_by_name_in in Hg as [Hin Hm].
+      destruct (nassoc (tc_src_index tc) g) as [src2|]; [|discriminate].
+      destruct (calculate_unit bexec cfg n2 src2 t g) as [[r|]|]; try discriminate.
+      cbn in H. inversion H; subst.
+      assert (In tgt (src :: map snd group ++ map snd g)) as Hr by (right; apply in_or_app; right; exact Hin).
+      split; [exact Hr|]. exists tgt. split; [exact Hr | exact Hm].
+Qed.
+
+End Reach.
+
+(* ------------------------------------------------------------------------------------- *)
+(* 3. exact arithmetic: the steps in order are one multiplication                          *)
+(* ------------------------------------------------------------------------------------- *)
+Definition shape_const (m k : Z) : Qc := Qc_dec m k.
+
+(* a step in a number algebra: multiplication / guarded division by the decimal constant *)
+Definition gstep {F : Type} {NF : Num F} (sh : shape) (a : F) : F :=
+  match sh with
+  | SId => a
+  | SMul m k => fmul a (fdec m k)
+  | SDiv m k => do_division a (fdec m k)
+  end.
+
+(* in exact arithmetic *)
+Definition qstep : shape -> Qc -> Qc := gstep.
+
+Definition shape_q (sh : shape) : Qc :=
+  match sh with
+  | SId => 1%Qc
+  | SMul m k => shape_const m k
+  | SDiv m k => (/ shape_const m k)%Qc
+  end.
+
+Fixpoint path_factor (p : list shape) : Qc :=
+  match p with
+  | [] => 1%Qc
+  | sh :: r => (shape_q sh * path_factor r)%Qc
+  end.
+
+Lemma qstep_mul sh a : qstep sh a = (a * shape_q sh)%Qc.
+Proof.
+  destruct sh as [|m k|m k]; unfold qstep; cbn [gstep shape_q].
+  - ring.
+  - reflexivity.
+  - reflexivity.
+Qed.
+
+Theorem run_q_linear : forall p x, run_path qstep p x = (x * path_factor p)%Qc.
+Proof.
+  induction p as [|sh r IH]; intro x; cbn [run_path fold_left path_factor].
+  - ring.
+  - change (fold_left (fun a sh0 => qstep sh0 a) r (qstep sh x)) with (run_path qstep r (qstep sh x)).
+    rewrite IH, qstep_mul. ring.
+Qed.
+
+Lemma path_factor_app p q : path_factor (p ++ q) = (path_factor p * path_factor q)%Qc.
+Proof.
+  induction p as [|sh r IH]; cbn [app path_factor].
+  - ring.
+  - rewrite IH. ring.
+Qed.
+
+(* ------------------------------------------------------------------------------------- *)
+(* 4. the factors of the loaded table are the statement's                                  *)
+(* ------------------------------------------------------------------------------------- *)
+(* a unit is identified in the specification by its (first) name *)
+Definition unit_spec {G} (d : dyntype G) : option (kind * Qc) :=
+  match dt_names d with n :: _ => spec_unit n | [] => None end.
+
+Definition uref_eqb (a b : unitref) : bool :=
+  str_eqb (u_group a) (u_group b) && N.eqb (u_index a) (u_index b).
+
+Lemma uref_eqb_eq a b : uref_eqb a b = true -> a = b.
+Proof.
+  destruct a as [ga ia], b as [gb ib]. unfold uref_eqb. cbn [u_group u_index]. intro H.
+  apply andb_true_iff in H as [H1 H2]. apply str_eqb_eq in H1. apply N.eqb_eq in H2. subst. reflexivity.
+Qed.
+
+Lemma mem_str_in x l : mem_str x l = true -> In x l.
+Proof.
+  induction l as [|y r IH]; cbn [mem_str]; intro H; [discriminate|].
+  apply orb_true_iff in H as [H|H].
+  - left. symmetry. apply str_eqb_eq. exact H.
+  - right. apply IH, H.
+Qed.
+
+Definition spec_eqb (a b : option (kind * Qc)) : bool :=
+  match a, b with
+  | Some (ka, sa), Some (kb, sb) => kind_eqb ka kb && Qc_eq_bool sa sb
+  | _, _ => false
+  end.
+
+Lemma kind_eqb_eq a b : kind_eqb a b = true -> a = b.
+Proof. destruct a, b; cbn; intro H; try reflexivity; discriminate. Qed.
+
+Lemma spec_eqb_eq a b : spec_eqb a b = true -> a = b /\ a <> None.
+Proof.
+  destruct a as [[ka sa]|], b as [[kb sb]|]; cbn [spec_eqb]; intro H; try discriminate.
+  apply andb_true_iff in H as [H1 H2]. apply kind_eqb_eq in H1. apply Qc_eq_bool_correct in H2.
+  subst. split; [reflexivity | discriminate].
+Qed.
+
+(* every unit of the table, under every one of its names, is a unit of the statement with one
+   well-defined non-zero size *)
+Definition unit_known (u : dyntype float) : bool :=
+  match unit_spec u with
+  | Some (_, su) => negb (Qc_eq_bool su 0%Qc) && forallb (fun n => spec_eqb (spec_unit n) (unit_spec u)) (dt_names u)
+  | None => false
+  end.
+
+Lemma units_known_b : forallb unit_known UNITS = true.
+Proof. vm_compute. reflexivity. Qed.
+
+Theorem spec_total : forall u, In u UNITS ->
+  exists k su, unit_spec u = Some (k, su) /\ su <> 0%Qc /\
+               forall n, In n (dt_names u) -> spec_unit n = Some (k, su).
+Proof.
+  intros u Hu. pose proof units_known_b as H. rewrite forallb_forall in H. specialize (H u Hu).
+  unfold unit_known in H. destruct (unit_spec u) as [[k su]|] eqn:Hs; [|discriminate].
+  apply andb_true_iff in H as [H0 H1]. exists k, su. split; [reflexivity|]. split.
+  - intro E. subst su. cbn in H0. discriminate.
+  - intros n Hn. rewrite forallb_forall in H1. specialize (H1 n Hn).
+    apply spec_eqb_eq in H1 as [H1 _]. exact H1.
+Qed.
+
+Definition pair_ok (u v : dyntype float) : bool :=
+  match unit_spec u, unit_spec v with
+  | Some (ku, su), Some (kv, sv) =>
+    if kind_eqb ku kv then
+      forallb (fun name =>
+                 match conv_path TYPES CONVS u name with
+                 | Some (path, t) => uref_eqb (uref t) (uref v) && Qc_eq_bool (path_factor path) (factor su sv)
+                 | None => false
+                 end) (dt_names v)
+    else true
+  | _, _ => false
+  end.
+
+Lemma pairs_ok_b : forallb (fun u => forallb (pair_ok u) UNITS) UNITS = true.
+Proof. vm_compute. reflexivity. Qed.
+
+Theorem factor_table : forall u v name k su sv,
+  In u UNITS -> In v UNITS -> In name (dt_names v) ->
+  unit_spec u = Some (k, su) -> unit_spec v = Some (k, sv) ->
+  exists path t, conv_path TYPES CONVS u name = Some (path, t) /\ uref t = uref v /\
+                 path_factor path = factor su sv.
+Proof.
+  intros u v name k su sv Hu Hv Hn Hsu Hsv.
+  pose proof pairs_ok_b as H. rewrite forallb_forall in H. specialize (H u Hu).
+  rewrite forallb_forall in H. specialize (H v Hv). unfold pair_ok in H. rewrite Hsu, Hsv in H.
+  replace (kind_eqb k k) with true in H by (destruct k; reflexivity).
+  rewrite forallb_forall in H. specialize (H name Hn).
+  destruct (conv_path TYPES CONVS u name) as [[path t]|]; [|discriminate].
+  apply andb_true_iff in H as [H1 H2]. exists path, t. split; [reflexivity|]. split.
+  - apply uref_eqb_eq, H1.
+  - apply Qc_eq_bool_correct, H2.
+Qed.
+
+Lemma path_of_pair : forall u v name k su sv p t,
+  In u UNITS -> In v UNITS -> In name (dt_names v) ->
+  unit_spec u = Some (k, su) -> unit_spec v = Some (k, sv) ->
+  conv_path TYPES CONVS u name = Some (p, t) ->
+  uref t = uref v /\ path_factor p = factor su sv.
+Proof.
+  intros u v name k su sv p t Hu Hv Hn Hsu Hsv Hp.
+  destruct (factor_table u v name k su sv Hu Hv Hn Hsu Hsv) as (p' & t' & E & H1 & H2).
+  rewrite Hp in E. inversion E; subst. split; assumption.
+Qed.
+
+(* the conversion in exact arithmetic: amount times size u / size v, for all amounts *)
+Theorem convert_exact : forall u v name k su sv p t,
+  In u UNITS -> In v UNITS -> In name (dt_names v) ->
+  unit_spec u = Some (k, su) -> unit_spec v = Some (k, sv) ->
+  conv_path TYPES CONVS u name = Some (p, t) ->
+  forall x, run_path qstep p x = (x * factor su sv)%Qc.
+Proof.
+  intros u v name k su sv p t Hu Hv Hn Hsu Hsv Hp x.
+  destruct (path_of_pair u v name k su sv p t Hu Hv Hn Hsu Hsv Hp) as [_ Hf].
+  rewrite run_q_linear, Hf. reflexivity.
+Qed.
+
+Theorem linear : forall p x y c,
+  run_path qstep p (x + y)%Qc = (run_path qstep p x + run_path qstep p y)%Qc /\
+  run_path qstep p (c * x)%Qc = (c * run_path qstep p x)%Qc.
+Proof. intros p x y c. rewrite !run_q_linear. split; ring. Qed.
+
+Theorem inverse : forall u v nu nv k su sv p1 t1 p2 t2,
+  In u UNITS -> In v UNITS -> In nu (dt_names u) -> In nv (dt_names v) ->
+  unit_spec u = Some (k, su) -> unit_spec v = Some (k, sv) ->
+  conv_path TYPES CONVS u nv = Some (p1, t1) ->
+  conv_path TYPES CONVS v nu = Some (p2, t2) ->
+  forall x, run_path qstep p2 (run_path qstep p1 x) = x.
+Proof.
+  intros u v nu nv k su sv p1 t1 p2 t2 Hu Hv Hnu Hnv Hsu Hsv H1 H2 x.
+  rewrite (convert_exact u v nv k su sv p1 t1 Hu Hv Hnv Hsu Hsv H1).
+  rewrite (convert_exact v u nu k sv su p2 t2 Hv Hu Hnu Hsv Hsu H2).
+  destruct (spec_total u Hu) as (k1 & s1 & E1 & N1 & _). rewrite Hsu in E1. inversion E1; subst.
+  destruct (spec_total v Hv) as (k2 & s2 & E2 & N2 & _). rewrite Hsv in E2. inversion E2; subst.
+  unfold factor. field. split; assumption.
+Qed.
+
+Theorem transitive : forall u v w nv nw k su sv sw p1 t1 p2 t2 p3 t3,
+  In u UNITS -> In v UNITS -> In w UNITS -> In nv (dt_names v) -> In nw (dt_names w) ->
+  unit_spec u = Some (k, su) -> unit_spec v = Some (k, sv) -> unit_spec w = Some (k, sw) ->
+  conv_path TYPES CONVS u nv = Some (p1, t1) ->
+  conv_path TYPES CONVS v nw = Some (p2, t2) ->
+  conv_path TYPES CONVS u nw = Some (p3, t3) ->
+  forall x, run_path qstep p2 (run_path qstep p1 x) = run_path qstep p3 x.
+Proof.
+  intros u v w nv nw k su sv sw p1 t1 p2 t2 p3 t3 Hu Hv Hw Hnv Hnw Hsu Hsv Hsw H1 H2 H3 x.
+  rewrite (convert_exact u v nv k su sv p1 t1 Hu Hv Hnv Hsu Hsv H1).
+  rewrite (convert_exact v w nw k sv sw p2 t2 Hv Hw Hnw Hsv Hsw H2).
+  rewrite (convert_exact u w nw k su sw p3 t3 Hu Hw Hnw Hsu Hsw H3).
+  destruct (spec_total v Hv) as (k2 & s2 & E2 & N2 & _). rewrite Hsv in E2. inversion E2; subst.
+  destruct (spec_total w Hw) as (k3 & s3 & E3 & N3 & _). rewrite Hsw in E3. inversion E3; subst.
+  unfold factor. field. split; assumption.
+Qed.
+
+(* the model itself, for every evaluator that computes the steps: one statement for all pairs *)
+Theorem convert_pair : forall (bexec : config float -> str -> res (option float)) (step : shape -> float -> float),
+  evaluates bexec default_config step ->
+  forall u v name k su sv, In u UNITS -> In v UNITS -> In name (dt_names v) ->
+  unit_spec u = Some (k, su) -> unit_spec v = Some (k, sv) ->
+  exists path t,
+    (forall x, dyn_convert bexec default_config x u name = Ok (Some (run_path step path x, t))) /\
+    uref t = uref v /\
+    (forall q, run_path qstep path q = (q * factor su sv)%Qc).
+Proof.
+  intros bexec step Hev u v name k su sv Hu Hv Hn Hsu Hsv.
+  destruct (factor_table u v name k su sv Hu Hv Hn Hsu Hsv) as (p & t & Hp & Ht & Hf).
+  exists p, t. split; [|split].
+  - intro x. apply convert_is_path; assumption.
+  - exact Ht.
+  - intro q. rewrite run_q_linear, Hf. reflexivity.
+Qed.
+
+(* ------------------------------------------------------------------------------------- *)
+(* 5. kinds                                                                               *)
+(* ------------------------------------------------------------------------------------- *)
+Definition kind_of_spec (o : option (kind * Qc)) : option kind := option_map fst o.
+
+Definition okind_eqb (a b : option kind) : bool :=
+  match a, b with Some x, Some y => kind_eqb x y | _, _ => false end.
+
+Lemma okind_eqb_eq a b : okind_eqb a b = true -> a = b /\ a <> None.
+Proof.
+  destruct a as [x|], b as [y|]; cbn; intro H; try discriminate.
+  apply kind_eqb_eq in H. subst. split; [reflexivity|discriminate].
+Qed.
+
+(* every name of every unit reachable from u names a unit of u's kind *)
+Definition reach_ok (u : dyntype float) : bool :=
+  forallb (fun t => okind_eqb (kind_of_spec (unit_spec t)) (kind_of_spec (unit_spec u)) &&
+                    forallb (fun n => okind_eqb (kind_of_spec (spec_unit n)) (kind_of_spec (unit_spec u))) (dt_names t))
+          (reach TYPES CONVS u).
+
+Lemma reach_ok_b : forallb reach_ok UNITS = true.
+Proof. vm_compute. reflexivity. Qed.
+
+(* the bridges link length with length and weight with weight; memory has none *)
+Theorem bridges :
+  map (fun tc => (tc_src_name tc, tc_tgt_name tc)) CONVS
+  = [(s "imperial-unit-length", s "metric-length"); (s "imperial-unit-weight", s "metric-weight")].
+Proof. vm_compute. reflexivity. Qed.
+
+Theorem kinds : forall (bexec : config float -> str -> res (option float)) x u name y t,
+  In u UNITS ->
+  dyn_convert bexec default_config x u name = Ok (Some (y, t)) ->
+  kind_of_spec (unit_spec t) = kind_of_spec (unit_spec u) /\ kind_of_spec (unit_spec u) <> None.
+Proof.
+  intros bexec x u name y t Hu H. apply convert_reach in H as [Hin _].
+  pose proof reach_ok_b as R. rewrite forallb_forall in R. specialize (R u Hu). unfold reach_ok in R.
+  rewrite forallb_forall in R. specialize (R t Hin). apply andb_true_iff in R as [R _].
+  apply okind_eqb_eq in R as [R1 R2]. split; [exact R1|]. rewrite <- R1. exact R2.
+Qed.
+
+(* a target name of another kind is never converted to *)
+Theorem cross_kind_declines : forall (bexec : config float -> str -> res (option float)) x u name k sz ku su,
+  In u UNITS -> spec_unit name = Some (k, sz) -> unit_spec u = Some (ku, su) -> k <> ku ->
+  forall y t, dyn_convert bexec default_config x u name <> Ok (Some (y, t)).
+Proof.
+  intros bexec x u name k sz ku su Hu Hn Hsu Hk y t H.
+  apply convert_reach in H as [_ (t' & Hin & Hm)].
+  pose proof reach_ok_b as R. rewrite forallb_forall in R. specialize (R u Hu). unfold reach_ok in R.
+  rewrite forallb_forall in R. specialize (R t' Hin). apply andb_true_iff in R as [_ R].
+  rewrite forallb_forall in R. specialize (R name (mem_str_in _ _ Hm)).
+  apply okind_eqb_eq in R as [R _]. rewrite Hn, Hsu in R. cbn in R. inversion R. contradiction.
+Qed.
+
+(* ------------------------------------------------------------------------------------- *)
+(* 6. arithmetic between quantities (Items.calculate), any number algebra                  *)
+(* ------------------------------------------------------------------------------------- *)
+Section Arith.
+Context {F : Type} {NF : Num F}.
+Variable bexec : config F -> str -> res (option F).
+Variable cfg : config F.
+
+(* quantity (+ - * /) number: the unit is kept *)
+Theorem calc_scale : forall x u y nt op,
+  calculate bexec cfg (IDynamicType x u) (INumber y nt) op = Ok (Some (IDynamicType (arith op x y) u)).
+Proof. intros x u y nt op. destruct op; reflexivity. Qed.
+
+(* quantity op quantity: the right operand is converted into the left operand's unit (under its
+   first name); + - * give a quantity of the left unit, / gives a plain number *)
+Theorem calc_quantities : forall x u y u' du du' name0 rest op,
+  unit_of cfg u = Some du -> unit_of cfg u' = Some du' -> dt_names du = name0 :: rest ->
+  calculate bexec cfg (IDynamicType x u) (IDynamicType y u') op =
+  match dyn_convert bexec cfg y du' name0 with
+  | Ok (Some (y', _)) =>
+    Ok (Some (match op with
+              | ODiv => INumber (do_division x y') Decimal
+              | _ => IDynamicType (arith op x y') u
+              end))
+  | Ok None => Ok None
+  | Panic site => Panic site
+  end.
+Proof.
+  intros x u y u' du du' name0 rest op Hu Hu' Hn. cbn [calculate]. rewrite Hu, Hu', Hn.
+  destruct (dyn_convert bexec cfg y du' name0) as [[[y' d]|]|site]; cbn [bind]; try reflexivity;
+    destruct op; reflexivity.
+Qed.
+
+(* a quantity of an unrelated kind on the right: no result *)
+Theorem calc_declines : forall x u y u' du du' name0 rest op,
+  unit_of cfg u = Some du -> unit_of cfg u' = Some du' -> dt_names du = name0 :: rest ->
+  dyn_convert bexec cfg y du' name0 = Ok None ->
+  calculate bexec cfg (IDynamicType x u) (IDynamicType y u') op = Ok None.
+Proof.
+  intros x u y u' du du' name0 rest op Hu Hu' Hn Hc.
+  rewrite (calc_quantities x u y u' du du' name0 rest op Hu Hu' Hn), Hc. reflexivity.
+Qed.
+
+End Arith.
+
+(* ------------------------------------------------------------------------------------- *)
+(* 7. binary64: the faithful evaluator on samples, and end-to-end examples                 *)
+(* ------------------------------------------------------------------------------------- *)
+(* [evaluates basic_execute default_config gstep] is the one link that is not proved for all
+   amounts (it runs the lexer, the parser and the interpreter on the printed amount); it is
+   executed here on samples for every code of the table, bit for bit, and on every generated
+   case of the correspondence check. *)
+Definition sample_ok (x : float) (code : str) : bool :=
+  match code_shape code,
+        basic_execute LX CK0 default_config (replace_all (s "{value}") (fdisplay x) code) with
+  | Some sh, Ok (Some y) => Z.eqb (f64_to_bits y) (f64_to_bits (gstep sh x))
+  | _, _ => false
+  end.
+
+Definition samples : list float :=
+  [1; 2.5; -3; 0.1; 1234567.891; 0.0000001; 123456789012345680000; -0.000123; 0]%float.
+
+Theorem evaluates_on_samples : forallb (fun x => forallb (sample_ok x) raw_codes) samples = true.
+Proof. vm_compute. reflexivity. Qed.
+
+Definition CK : clock := {| ck_today := 19000; ck_year := 2022 |}.
+
+Definition run12 (text : string) : list (option (str * option (token float))) :=
+  match exec64 CK default_config (s "en") (s text) with
+  | Ok r => map (fun l => match l with
+                          | Some o => match lo_result o with
+                                      | LOk out a => Some (out, ast_as_token a)
+                                      | _ => None
+                                      end
+                          | None => None
+                          end) (er_lines r)
+  | Panic _ => []
+  end.
+
+Definition is_qty (text : string) (v : float) (group : string) (index : N) (out : string) : bool :=
+  match run12 text with
+  | [Some (o, Some (TDynamicType x u))] =>
+    Z.eqb (f64_to_bits x) (f64_to_bits v) && str_eqb (u_group u) (s group) && N.eqb (u_index u) index &&
+    str_eqb o (s out)
+  | _ => false
+  end.
+
+Definition is_number (text : string) (v : float) : bool :=
+  match run12 text with
+  | [Some (_, Some (TNumber x _))] => Z.eqb (f64_to_bits x) (f64_to_bits v)
+  | _ => false
+  end.
+
+Theorem examples64 :
+  is_qty "1 km to m" 1000 "metric-length" 4 "1.000 Meter" = true /\
+  is_qty "1 inch to mm" 25.4 "metric-length" 1 "25,40 Millimeter" = true /\
+  is_qty "1 kg to hg" 10 "metric-weight" 6 "10 Hectogram" = true /\
+  is_qty "1 byte to bit" 8 "memory" 1 "8bit" = true /\
+  is_qty "1 mile to yard" 1760 "imperial-unit-length" 3 "1.760 Yard" = true /\
+  is_qty "1 stone to oz" 224 "imperial-unit-weight" 1 "224 Ounce" = true /\
+  is_qty "2 gb to mb" 2048 "memory" 4 "2.048MB" = true /\
+  is_qty "3 kg + 500 g" 3.5 "metric-weight" 7 "3,50 Kilogram" = true /\
+  is_qty "1 km / 2" 0.5 "metric-length" 7 "0,50 Kilometer" = true /\
+  is_qty "2 m * 3" 6 "metric-length" 4 "6 Meter" = true /\
+  is_number "10 m / 2 m" 5 = true /\
+  is_number "1 km / 500 m" 2 = true /\
+  (* other kinds: no conversion, the quantity stays as written *)
+  is_qty "1 m to bit" 1 "metric-length" 4 "1 Meter" = true /\
+  is_qty "1 oz to mm" 1 "imperial-unit-weight" 1 "1 Ounce" = true /\
+  is_qty "1 kb to inch" 1 "memory" 3 "1KB" = true.
+Proof. vm_compute. repeat split; reflexivity. Qed.
